@@ -149,9 +149,40 @@ class QueryBuilder:
             return extra + [self.cond(x) for x in c["cs"]]
         return extra + [self.cond(c)]
 
+    # -- rule trees ---------------------------------------------------------
+    def build_rule(self):
+        """query = an(entity(v := let(P), base condition)); with rule_mode(query): Add / refinement / alternative."""
+        from entity_query_language import Add, refinement, alternative
+        tree = self.q["tree"]
+        nv = len(self.q["vars"])
+        with symbolic_mode():
+            v = let(type_=world.P)
+            self.query = an(entity(v, self.cond(tree["cond"])))
+
+        def conclusion(node):
+            kwargs = {"a": self.var(1), "b": node["tag"]}
+            if nv > 1:
+                kwargs["c"] = self.var(2)
+            Add(v, world.P(**kwargs))
+
+        def emit(node):
+            conclusion(node)
+            if node["ref"]["k"] == "node":
+                with refinement(self.cond(node["ref"]["cond"])):
+                    emit(node["ref"])
+            if node["alt"]["k"] == "node":
+                with alternative(self.cond(node["alt"]["cond"])):
+                    emit(node["alt"])
+
+        with rule_mode(self.query):
+            emit(tree)
+        return self.query
+
     # -- whole query -------------------------------------------------------
     def build(self):
         q = self.q
+        if "tree" in q:
+            return self.build_rule()
         quant = {"an": an, "the": the, "infer": infer}[q.get("quant", "an")]
         ctx = rule_mode() if q.get("quant") == "infer" or q.get("mode") == "rule" else symbolic_mode()
         with ctx:
